@@ -962,6 +962,16 @@ func init() {
 				fsmRefRule(c, "R10", f)
 			}
 		}},
+		{"R11", "the resumed epilogue of the first line equals the one-shot one (shared with C08-S7): both Reason.Extend sites of ParseFLine use skipLine's offset minus the line-end length of the same call, so a reply cut inside its reason phrase ends the reason where the one-shot parse does for CR LF, lone CR and lone LF", func(c *Ctx) {
+			t := &Ctx{Prog: c.Prog, Prop: c.Prop}
+			ruleS7(t)
+			for _, o := range t.obls {
+				o.Key = "R11:" + strings.TrimPrefix(o.Key, "S7:")
+				o.Rule = "R11"
+				c.obls = append(c.obls, o)
+			}
+			c.expectMin("R11", 2)
+		}},
 		{"R4", "the verdict of every call to a callee that may report more-bytes is returned or tested, never discarded", ruleR4},
 		{"R6", "read-back values that must not depend on how the input was cut: the raw-message / buffer views use the start offset saved on the first call (never the current call's offset), and the header counters advance exactly on first entry of a header, not on resume", ruleR6},
 		{"R5", "slot persistence of the list parsers: no reset of the in-progress slot on more-bytes paths or before the sub-parser is re-entered; reset before the next element", ruleR5},
